@@ -85,12 +85,11 @@ func (dl *datalog) openSegment(name string, id uint16, seqID uint64) (*segment, 
 	}
 
 	meta := &segmentMeta{}
-	if !f.empty() {
-		metaName := name + metaExt
-		if err := readGobFile(dl.opts.FileSystem, metaName, &meta); err != nil {
-			logger.Printf("error reading segment meta %d: %v", id, err)
-			// TODO: rebuild meta?
-		}
+	metaName := name + metaExt
+	// An empty segment can have meta too (a full empty segment must stay full across restarts).
+	if err := readGobFile(dl.opts.FileSystem, metaName, &meta); err != nil && (!f.empty() || !os.IsNotExist(err)) {
+		logger.Printf("error reading segment meta %d: %v", id, err)
+		// TODO: rebuild meta?
 	}
 
 	seg := &segment{
